@@ -11,6 +11,7 @@ func init() {
 			"(each child takes every 16th triple; exhaustive=true only if every child visited its whole share), thorough adds seeded triples with n<=500, p<=32. " +
 			"Per triple 12 real jobs (DatasetSource -> JavascriptTransform(Parallelism p) -> DatasetSink; incremental and fullsync x transform variants stamp/drop/dup/create/identity/identity-by-copy) " +
 			"plus, on every 4th triple, the stamp variant into a recording HttpDatasetSink, are built by the scheduler from JSON and executed the way cron does (jobrunner.New(job).Run()). " +
+			"Outside the box, in both tiers: 5 large triples whose sink batches are exactly / around 1000 and 2000 entities (n,b = 1000,1000; 2500,1000; 1200,500 with the duplicating transform; 1400,700; 2000,2000), stamp and dup variants, incremental and fullsync. " +
 			"Histories with repeated ids, per triple and pipeline type: flip-back (run 1 copies version a; every second source entity is then written as b and as a again, two writes each; run 2 through an identity transform must leave sink change feed == source change feed and sink latest == source latest; run 3 adds no change (incremental) / leaves the latest view (fullsync replays the history)) " +
 			"and draft (the transform returns a draft copy followed by the entity itself for every input; run twice; sink feed == returned sequence with only repeats of the current version dropped, latest == the entity). " +
 			"Deciding monitors: multiset of entities the transform logged (exactly once), sink change feed == f(seen entities) in source order, identity == plain copy job, second run adds no change, no panic / process death. " +
